@@ -240,7 +240,7 @@ def run_unit(unit, ctx):
     R = K.Result()
     rng = K.unit_rng(ID, ctx["seed"], unit)
     defn = gen.program(rng, n_state=(1, 3), n_control=(1, 3), n_calib=(1, 3), n_sensor=(1, 2), n_reading=(1, 3),
-                       depth=1, n_shared=(0, 1), calib_containers=("set", "set", "frozenset"))
+                       depth=1, n_shared=(0, 1), calib_containers=("set", "frozenset", "list", "tuple"))
     if unit["i"] % 4 == 3:
         # also without control / calibration
         defn = gen.program(rng, n_state=(1, 3), n_control=(0, 1), n_calib=(0, 1), n_sensor=(1, 2),
